@@ -51,9 +51,9 @@ PROPS = {
             "faithfulness of the structural node equality used to merge GROUP BY expressions with targets, for all "
             "evaluator classes and all column instances that can meet in one table (R-EQFAITH); grouping references "
             "validated against the domain they are resolved in (R-IDXBOUND) and hidden grouping targets nameless and "
-            "appended (R-HIDDEN). Does not decide numeric values of folds nor hashing/equality of key values. Every aggregate node of a target expression is found, once per occurrence and left to right, by get_columns_and_aggregates (R-AGGCOLLECT): a node left out is never allocated, updated or finalized. R-AGGCLASS decides, on terms, the final state of the slot and the mutations of the accumulator object for every value x slot x order x state-query case of every aggregate class, and initialize / finalize / __call__. EvalNode.__eq__ itself holds iff same class and all __slots__ attributes equal (16 cases on terms). Every operand a node is built with is among what childnodes() yields, for each of the 12 evaluator classes (R-CHILDNODES): an operand kept in a tuple or outside __slots__ hides the aggregates below it. The slot allocator on terms: n allocate() calls return n different indexes, all valid in every store create_store() makes afterwards, and every store is a new list of NULLs (R-ALLOCATOR). An aggregate query that returns after the scan without walking the groups, on a condition that is not about the group container being empty, is a violation (R-AGGPROTO early-return). LIMIT, DISTINCT and ORDER BY act on the groups: with any of them the aggregates are still fed from every selected row of the source table itself (R-AGGPROTO scan), and a grouped query without any aggregate still assigns every selected row to the group of its full key, visible or not (R-AGGPROTO grouping). Evaluators other than the aggregates keep nothing on the node between rows or groups (R-ROWPURE): HAVING and the targets of every group are evaluated afresh."),
+            "appended (R-HIDDEN). Does not decide numeric values of folds nor hashing/equality of key values. Every aggregate node of a target expression is found, once per occurrence and left to right, by get_columns_and_aggregates (R-AGGCOLLECT): a node left out is never allocated, updated or finalized. R-AGGCLASS decides, on terms, the final state of the slot and the mutations of the accumulator object for every value x slot x order x state-query case of every aggregate class, and initialize / finalize / __call__. EvalNode.__eq__ itself holds iff same class and all __slots__ attributes equal (16 cases on terms). Every operand a node is built with is among what childnodes() yields, for each of the 12 evaluator classes (R-CHILDNODES): an operand kept in a tuple or outside __slots__ hides the aggregates below it. The slot allocator on terms: n allocate() calls return n different indexes, all valid in every store create_store() makes afterwards, and every store is a new list of NULLs (R-ALLOCATOR). An aggregate query that returns after the scan without walking the groups, on a condition that is not about the group container being empty, is a violation (R-AGGPROTO early-return). LIMIT, DISTINCT and ORDER BY act on the groups: with any of them the aggregates are still fed from every selected row of the source table itself (R-AGGPROTO scan), and a grouped query without any aggregate still assigns every selected row to the group of its full key, visible or not (R-AGGPROTO grouping). Evaluators other than the aggregates keep nothing on the node between rows or groups (R-ROWPURE): HAVING and the targets of every group are evaluated afresh. BALANCES is a grouped aggregate SELECT: its WHERE clause, FROM clause and summary function reach the expansion (R-FIELDFLOW), so the rows that are folded are the selected ones. A group whose slot ends NULL makes the node NULL - the node object serves all groups (R-AGGCLASS finalize-null)."),
         'assumptions': TRUSTED_STRUCT,
-        'quick': [sxs.rule_aggproto, sxag.rule_aggclass, eqfaith.rule_eqfaith, sxk.rule_idxbound, cr.rule_hidden, sxg.rule_aggcollect, sxev.rule_childnodes, sxs.rule_allocator, st.rule_rowpure],
+        'quick': [sxs.rule_aggproto, sxag.rule_aggclass, eqfaith.rule_eqfaith, sxk.rule_idxbound, cr.rule_hidden, sxg.rule_aggcollect, sxev.rule_childnodes, sxs.rule_allocator, st.rule_rowpure, cl.rule_fieldflow],
         'thorough': [sxs.rule_aggproto_deep, sxk.rule_idxbound_deep],
     },
     'C03': {
@@ -91,7 +91,7 @@ PROPS = {
             "does not decide values of dtype `object` nor conformance of ledger data to beancount's annotations. Also: the overload-resolution primitives of types.py (Any equals every class and not the `*` pseudo-type, the strict linearisation, first overload along it) behave as the registry model assumes (R-LOOKUP, 13 cases on terms), and every output column of both scan branches holds the value of its own target (R-ROWLOOP, R-AGGPROTO key layout). A subquery column announces the data type of the inner target whose row position it reads, with hidden, repeated and mixed-case inner names (R-VISFILTER). AND / OR announce bool and evaluate to NULL, FALSE or TRUE whatever the operand types (R-3VL). `x.attr` builds EvalGetter(x, field column, field column datatype) (R-ACCESSNODE); R-GUARDS: a grouping key of a type that cannot be hashed is rejected however it is referenced. Constants announce type(value) exactly, or the dtype they are given (R-CONSTTYPE). A query parameter becomes EvalConstant(value) with no dtype override (R-PLACEHOLDER): what the type checker sees is the exact class of the value executed with."),
         'assumptions': TRUSTED_ABSINT,
         'quick': [dtype.rule_dtype, dtype.rule_typesafe, dtype.rule_renderable, sxg.rule_opresolve, sxk.rule_coalesce,
-                  sxk.rule_implicitcast, sxty.rule_lookup, sxs.rule_aggproto, sx.rule_rowloop, tb.rule_tablefields, cr.rule_visfilter, sxev.rule_3vl, sxk.rule_accessnode, sxg.rule_guards, sxk.rule_consttype, sxst.rule_placeholder],
+                  sxk.rule_implicitcast, sxty.rule_lookup, sxs.rule_aggproto, sx.rule_rowloop, tb.rule_tablefields, cr.rule_visfilter, sxev.rule_3vl, sxk.rule_accessnode, sxg.rule_guards, sxk.rule_consttype, sxst.rule_placeholder, sxev.rule_accesseval],
         'thorough': [dtype.rule_admitted],
     },
     'C05': {
@@ -150,9 +150,9 @@ PROPS = {
             "name, and subquery columns are numbered among the visible targets (R-VISFILTER); `*` expands to names "
             "that are columns of the table, for all 10 tables (R-WILDCARD); the expression text is text[pos:endpos] of "
             "the node's own parse info (R-NAMESLICE); projection to visible indexes (R-PIPELINE). Does not decide that "
-            "the slice equals the expression's text for arbitrary spacing (positions come from TatSu at run time). execute_query returns what execute_select returned (R-QUERYEXEC) and every accepting path of _compile_select returns the EvalQuery built there over this statement's own compiled targets (R-SELECTNODE): there is no second place where a description is made, and no path on which the names of another SELECT are published. The target rule of the grammar is `expression [AS identifier]`: an alias is an identifier, so no visible column can have an empty or otherwise falsy name (R-CLAUSELANG on the target and select rules)."),
+            "the slice equals the expression's text for arbitrary spacing (positions come from TatSu at run time). execute_query returns what execute_select returned (R-QUERYEXEC) and every accepting path of _compile_select returns the EvalQuery built there over this statement's own compiled targets (R-SELECTNODE): there is no second place where a description is made, and no path on which the names of another SELECT are published. The target rule of the grammar is `expression [AS identifier]`: an alias is an identifier, so no visible column can have an empty or otherwise falsy name (R-CLAUSELANG on the target and select rules). cursor.description after execute() is the description execute_query returned, whatever it is - the empty tuple of a result without columns included (R-RESET)."),
         'assumptions': TRUSTED_STRUCT,
-        'quick': [cr.rule_hidden, cr.rule_visfilter, cr.rule_wildcard, cr.rule_nameslice, sxs.rule_pipeline, sxs.rule_queryexec, sxp.rule_selectnode, gr.rule_clauselang_target],
+        'quick': [cr.rule_hidden, cr.rule_visfilter, cr.rule_wildcard, cr.rule_nameslice, sxs.rule_pipeline, sxs.rule_queryexec, sxp.rule_selectnode, gr.rule_clauselang_target, sxc.rule_reset],
         'thorough': [],
     },
     'C08': {
@@ -254,9 +254,9 @@ PROPS = {
             "consistently to all siblings is rejected as well (R-TRUNCLAW, 14 unit cases); (6) date(<string>) converts through "
             "strptime('%Y-%m-%d') and nothing else, date(y, m, d) is datetime.date(y, m, d), and possign / account_sortkey "
             "classify accounts with the account types of this very ledger (R-CASTDEF). NOT decided (equalities over run-time values, outside static reach): the "
-            "inverse pairs (date_add / date_diff), ISO week numbers, regex results, decimal arithmetic. findfirst, grep and grepn are compared with reference implementations through the outside functions they apply and to what (re.match on each value in sorted order; re.search(pattern, string) and the group taken). R-DEFN also holds a definition per implementation for the functions several overloads share a name for or that branch - quarter, weekday, today, units / cost / value / convert of amounts, positions and inventories (the beancount.core.convert function each applies, with the price map of the connection), getprice, filter_currency, possign, parse_date - compared path by path (the same value under the same conditions, however the conditions are spelled); safediv is decided with a zero and a non-zero divisor (the decimal zero without any division, else x / y); interval() is decided for every unit word its pattern admits (relativedelta of that calendar unit with the integer written), the pattern itself on membership vectors (`[+-]digits blank(s) unit[s]` over the whole argument), NULL otherwise."),
+            "inverse pairs (date_add / date_diff), ISO week numbers, regex results, decimal arithmetic. findfirst, grep and grepn are compared with reference implementations through the outside functions they apply and to what (re.match on each value in sorted order; re.search(pattern, string) and the group taken). R-DEFN also holds a definition per implementation for the functions several overloads share a name for or that branch - quarter, weekday, today, units / cost / value / convert of amounts, positions and inventories (the beancount.core.convert function each applies, with the price map of the connection), getprice, filter_currency, possign, parse_date - compared path by path (the same value under the same conditions, however the conditions are spelled); safediv is decided with a zero and a non-zero divisor (the decimal zero without any division, else x / y); interval() is decided for every unit word its pattern admits (relativedelta of that calendar unit with the integer written), the pattern itself on membership vectors (`[+-]digits blank(s) unit[s]` over the whole argument), NULL otherwise. Date and interval arithmetic is the operator overloads: every overload of + and - (date +/- int, date - date, date +/- interval, interval +/- interval) computes the Python operation of its name on its operands in order (R-OPSEM)."),
         'assumptions': TRUSTED_ABSINT[:1],
-        'quick': [lib.rule_casttotal, sxl.rule_defn, sxdb.rule_binfloor, sxdb.rule_trunclaw, sxl.rule_castdef],
+        'quick': [lib.rule_casttotal, sxl.rule_defn, sxdb.rule_binfloor, sxdb.rule_trunclaw, sxl.rule_castdef, evalnodes.rule_opsem],
         'thorough': [],
     },
     'C20': {
@@ -275,7 +275,7 @@ PROPS = {
             "the call graph is over-approximated: every function of the non-front-end modules that is not import-only is "
             "treated as execution-reachable",
             "TatSu, beancount and dateutil internals perform no shared writes (summarised, not analysed)"],
-        'quick': [st.rule_shared, sxst.rule_tablecopy, sxst.rule_onceperrow, cu.rule_modconst, sxc.rule_freshcursor, st.rule_parsefresh, sxc.rule_connection, sxt.rule_attach, sxst.rule_compilefn, st.rule_inputmut],
+        'quick': [st.rule_shared, sxst.rule_tablecopy, sxst.rule_onceperrow, cu.rule_modconst, sxc.rule_freshcursor, st.rule_parsefresh, sxc.rule_connection, sxt.rule_attach, sxst.rule_compilefn, st.rule_inputmut, sxn.rule_runquery],
         'thorough': [],
     },
     'C11': {
@@ -292,10 +292,10 @@ PROPS = {
             "record field, all tables registered, structure aliases consistent (R-TABLEFIELDS); meta()/entry_meta()/"
             "any_meta() rewritten to the right dictionary lookups, open/close selection from the (open, close) pair "
             "(R-METAREWRITE); getitem NULL-propagating (R-NULLSTRICT). Does not decide that beancount's getters and "
-            "convert functions compute what their names say. FROM qualifiers are applied to a copy of the connection's table, so the rows of a statement come from its own clauses only (R-TABLECOPY); getitem on a NULL container gives NULL with or without a default. attach() on terms, with and without a file name in the dsn: every class in TABLES is bound by a plain item store - replacing an earlier binding - to a table over the entries and options of this attach, and the connection's options and errors come from the same ledger (R-ATTACH). GetAttrColumn / GetItemColumn evaluate to the attribute / item they were built with and announce the dtype given; _typed_namedtuple_to_columns makes one column per annotated field, in order, published under its renamed name but reading the field itself, Optional unwrapped, generics reduced to their origin, `meta` announced as Metadata (R-TYPEDCOLS, on terms with typing's introspection stubbed). AccountsTable, CommoditiesTable and PricesTable keep beancount's own readings of the ledger - getters.get_account_open_close, get_account_types of the options, get_commodity_directives, prices.build_price_map - and their row generators walk exactly those maps (R-TABLESOURCE). Options a column accessor fixes in the calls it makes (hash_entry(..., exclude_meta=...)) are part of its recorded access path (R-ACCESSPATH call_consts). Presenting the ledger does not change it: no table, accessor or renderer of the source stores into or mutates the directives, their metadata or the entries list (R-INPUTMUT). meta['k'], getitem() and x.field read the container as it is: dict.get with the key (and default) given, the field getter of the structure (R-ACCESSEVAL)."),
+            "convert functions compute what their names say. FROM qualifiers are applied to a copy of the connection's table, so the rows of a statement come from its own clauses only (R-TABLECOPY); getitem on a NULL container gives NULL with or without a default. attach() on terms, with and without a file name in the dsn: every class in TABLES is bound by a plain item store - replacing an earlier binding - to a table over the entries and options of this attach, and the connection's options and errors come from the same ledger (R-ATTACH). GetAttrColumn / GetItemColumn evaluate to the attribute / item they were built with and announce the dtype given; _typed_namedtuple_to_columns makes one column per annotated field, in order, published under its renamed name but reading the field itself, Optional unwrapped, generics reduced to their origin, `meta` announced as Metadata (R-TYPEDCOLS, on terms with typing's introspection stubbed). AccountsTable, CommoditiesTable and PricesTable keep beancount's own readings of the ledger - getters.get_account_open_close, get_account_types of the options, get_commodity_directives, prices.build_price_map - and their row generators walk exactly those maps (R-TABLESOURCE). Options a column accessor fixes in the calls it makes (hash_entry(..., exclude_meta=...)) are part of its recorded access path (R-ACCESSPATH call_consts). Presenting the ledger does not change it: no table, accessor or renderer of the source stores into or mutates the directives, their metadata or the entries list (R-INPUTMUT). meta['k'], getitem() and x.field read the container as it is: dict.get with the key (and default) given, the field getter of the structure (R-ACCESSEVAL). Attribute and subscript nodes return NULL only for a NULL container: a zero amount or an empty dictionary is a value (R-NULLSTRICT falsy)."),
         'assumptions': TRUSTED_STRUCT + TRUSTED_ABSINT[:2],
         'quick': [tb.rule_accesspath, sxt.rule_rowgen, tb.rule_tablefields, tb.rule_metarewrite, dtype.rule_dtype_columns,
-                  dtype.rule_typesafe_columns, sxst.rule_tablecopy, st.rule_shared, sxt.rule_attach, sxt.rule_typedcols, sxt.rule_tablesource, st.rule_inputmut, sxev.rule_accesseval],
+                  dtype.rule_typesafe_columns, sxst.rule_tablecopy, st.rule_shared, sxt.rule_attach, sxt.rule_typedcols, sxt.rule_tablesource, st.rule_inputmut, sxev.rule_accesseval, sxev.rule_nullstrict],
         'thorough': [],
     },
     'C13': {
@@ -325,9 +325,9 @@ PROPS = {
             "(R-EXHAUSTIVE); PRINT collects row.entry for exactly the rows whose filter is absent or true, in order, and "
             "hands the list unmodified to the printer (R-PRINTFILTER, 4 gate cases). The SELECT templates themselves are "
             "string constants and deliberately not matched (a frozen fragment). NOT decided: that printed entries load "
-            "back equal (beancount's printer and parser). The running balance and every other piece of state the expansions touch is private to one execution (R-SHARED), and the FROM qualifiers of all three statements are applied in the fixed order (R-CALLORDER). has_account(), the one function that looks at the directive itself, takes the accounts from getters.get_entry_accounts(context.entry), never branches on the directive type and answers TRUE or FALSE on every path (R-ENTRYFILTER): PRINT evaluates its filter on directives of every type. account_sortkey() classifies with the account types of this ledger (R-ACCTTYPES); execute_print does not hand the ledger's rounding display context to the printer (R-PRINTFILTER print:precision) - a necessary condition of losslessness, the round trip itself is not decided. What the three statements read from the ledger is decided too: every column of the entries and postings tables (the operands of a PRINT filter, of WHERE and of the JOURNAL / BALANCES templates) reads the recorded attribute path of the directive (R-ACCESSPATH), and the summary functions units / cost / value of a position or inventory are the recorded reductions of beancount's convert module (R-REDUCE). In the shell PRINT hands the compiled statement and the output file to execute_print unchanged (R-PRINTOUT). The FROM / WHERE conditions of the three statements are evaluated with the operators' own semantics - BETWEEN with both bounds inclusive, comparisons as written (R-OPSEM)."),
+            "back equal (beancount's printer and parser). The running balance and every other piece of state the expansions touch is private to one execution (R-SHARED), and the FROM qualifiers of all three statements are applied in the fixed order (R-CALLORDER). has_account(), the one function that looks at the directive itself, takes the accounts from getters.get_entry_accounts(context.entry), never branches on the directive type and answers TRUE or FALSE on every path (R-ENTRYFILTER): PRINT evaluates its filter on directives of every type. account_sortkey() classifies with the account types of this ledger (R-ACCTTYPES); execute_print does not hand the ledger's rounding display context to the printer (R-PRINTFILTER print:precision) - a necessary condition of losslessness, the round trip itself is not decided. What the three statements read from the ledger is decided too: every column of the entries and postings tables (the operands of a PRINT filter, of WHERE and of the JOURNAL / BALANCES templates) reads the recorded attribute path of the directive (R-ACCESSPATH), and the summary functions units / cost / value of a position or inventory are the recorded reductions of beancount's convert module (R-REDUCE). In the shell PRINT hands the compiled statement and the output file to execute_print unchanged (R-PRINTOUT). The FROM / WHERE conditions of the three statements are evaluated with the operators' own semantics - BETWEEN with both bounds inclusive, comparisons as written (R-OPSEM). Through run_query() the statement executed is query.format(*args) whatever args is, so the text the three statements are given means the same with and without formatting arguments (R-RUNQUERY format)."),
         'assumptions': TRUSTED_STRUCT,
-        'quick': [cl.rule_fieldflow, cr.rule_exhaustive, sx.rule_printfilter, st.rule_shared, cl.rule_callorder, sx.rule_entryfilter, sxl.rule_accttypes, sxst.rule_onceperrow, tb.rule_accesspath, sxl.rule_reduce, sxsh.rule_printout, evalnodes.rule_opsem],
+        'quick': [cl.rule_fieldflow, cr.rule_exhaustive, sx.rule_printfilter, st.rule_shared, cl.rule_callorder, sx.rule_entryfilter, sxl.rule_accttypes, sxst.rule_onceperrow, tb.rule_accesspath, sxl.rule_reduce, sxsh.rule_printout, evalnodes.rule_opsem, sxn.rule_runquery],
         'thorough': [],
     },
     'C15': {
@@ -339,9 +339,9 @@ PROPS = {
             "(R-GUARDS). Reshaping half, structurally: remaining columns = all but the two pivots, keys sorted, naming "
             "switch on the number of remaining columns, datatypes repeated per key, rows sorted and grouped by the first "
             "column, block placement keys.index(k) * nother + 1, NULL fill (R-PIVOTSHAPE: the recognised skeleton; a "
-            "rewrite ends in ANALYSIS-ERROR, not a verdict). NOT decided: the index arithmetic for all key sets. The pivotby grammar rule derives exactly two references separated by a comma, each a name or a position independently (R-CLAUSELANG); _compile_select hands EvalPivot the compiled query and exactly the two positions _compile_pivot_by resolved, first then second (R-PIVOTFLOW). The blocks are named by the text of the key values and typed by the announced dtypes: every value a function, operator or column delivers is of the dtype it announces - a bool under int is not (R-DTYPE), since `True/total` is not the name of a block of an integer key. NULL keys cannot be pivoted on (they do not sort), so nullable keys go through COALESCE: it returns its first non-NULL argument, zero / empty / FALSE included (R-3VL), so that no key value is merged into the fallback."),
+            "rewrite ends in ANALYSIS-ERROR, not a verdict). NOT decided: the index arithmetic for all key sets. The pivotby grammar rule derives exactly two references separated by a comma, each a name or a position independently (R-CLAUSELANG); _compile_select hands EvalPivot the compiled query and exactly the two positions _compile_pivot_by resolved, first then second (R-PIVOTFLOW). The blocks are named by the text of the key values and typed by the announced dtypes: every value a function, operator or column delivers is of the dtype it announces - a bool under int is not (R-DTYPE), since `True/total` is not the name of a block of an integer key. NULL keys cannot be pivoted on (they do not sort), so nullable keys go through COALESCE: it returns its first non-NULL argument, zero / empty / FALSE included (R-3VL), so that no key value is merged into the fallback. The query that is pivoted is compiled with the same arguments as the statement without PIVOT BY - ORDER BY specification, LIMIT and DISTINCT included (R-PIVOTFLOW query) - and is executed by execute_select, which applies ORDER BY, DISTINCT and LIMIT itself (R-PIPELINE, R-QUERYEXEC): the rows reshaped are the rows of the un-pivoted result."),
         'assumptions': TRUSTED_STRUCT,
-        'quick': [sxk.rule_idxbound, cr.rule_guard_typesafe, sxg.rule_guards, sxp.rule_pivotshape, gr.rule_clauselang_pivot, sxp.rule_pivotflow, dtype.rule_dtype, sxev.rule_3vl],
+        'quick': [sxk.rule_idxbound, cr.rule_guard_typesafe, sxg.rule_guards, sxp.rule_pivotshape, gr.rule_clauselang_pivot, sxp.rule_pivotflow, dtype.rule_dtype, sxev.rule_3vl, sxs.rule_pipeline, sxs.rule_queryexec],
         'thorough': [sxp.rule_pivotshape_deep, sxk.rule_idxbound_deep],
     },
     'C19': {
